@@ -87,7 +87,8 @@ Theorem C02_remove_data_exact : forall ops d x strict,
   /\ (forall y a', get_ann s' y = Some a' -> exists a, get_ann s y = Some a /\ a' = ann_remove_data a d x).
 Proof.
   intros ops d x strict s. destruct (reachable_Good ops) as (HI & Hwf & _ & Hrf & _).
-  apply (remove_data_h_exact s d x strict HI Hwf Hrf).
+  destruct (remove_data_h_exact s d x strict HI Hwf Hrf) as (A & B). split; [exact A|].
+  intros y a' Hy. destruct (B y a' Hy) as (a & Ha & He & _). exists a. tauto.
 Qed.
 
 (* the closure of the specification is reachability along "targets an annotation" edges *)
